@@ -181,7 +181,7 @@ def run_c20(it):
             elif rt == "dtw_ndim.distance_fast":
                 res = dtw_ndim.distance_fast(args[0], args[1], **opts)
             elif rt == "dtw.distance_matrix":
-                res = dtw.distance_matrix(args[0], compact=True, **opts)
+                res = dtw.distance_matrix(args[0], compact=True, parallel=call.get("parallel", False), **opts)
             elif rt == "dtw.distance_matrix[dict]":
                 res = dtw.distance_matrix(args[0], compact=True, **shared)
             elif rt == "dtw.distance_matrix_fast":
